@@ -198,15 +198,24 @@ public:
               // cannot propagate the allocator and cannot adopt the memory
               if (img._memory)
               {
-                  allocate_and_copy(img.dimensions(), img._view);
+                  // copy with our allocator first (may throw, nothing is changed yet),
+                  // then release our old storage and adopt the copy
+                  image tmp(img._view, _align_in_bytes, _alloc);
+                  destruct_pixels(_view);
+                  this->deallocate();
+                  exchange_memory(*this, tmp);
                   destruct_pixels(img._view);
                   img.deallocate();
+                  img._memory = nullptr;
+                  img._allocated_bytes = 0;
                   img._view = image::view_t{};
               }
               else
               {
                   destruct_pixels(this->_view);
                   this->deallocate();
+                  this->_memory = nullptr;
+                  this->_allocated_bytes = 0;
                   this->_view = view_t{};
               }
           }
